@@ -14,6 +14,8 @@ import (
 	"math/rand"
 	"os"
 	"os/exec"
+	"regexp"
+	"strconv"
 	"strings"
 	"time"
 
@@ -282,6 +284,10 @@ func validFile(r *rand.Rand, format string) []byte {
 	return nil
 }
 
+var nexusDimRe = regexp.MustCompile(`(?i)(^|[\s;])dimensions\s[^;]*;`)
+var nexusNtaxRe = regexp.MustCompile(`(?i)\sntax\s*=\s*([0-9]+)[\s;]`)
+var nexusNcharRe = regexp.MustCompile(`(?i)\snchar\s*=\s*([0-9]+)[\s;]`)
+
 var c03Splices = []string{"\n", "\r", "\r\n", " ", "\t", "[", "]", ";", "#", ">", "=", "//", "0", "9", "-1", "99999999999999999999", "A", "-", ".", ",", "/",
 	"#NEXUS", "BEGIN", "MATRIX", "END;", "CLUSTAL", "# STOCKHOLM 1.0", "#=GF x", "[abc", "DIMENSIONS", "\x00", "  \n", ">\n", "> \n",
 	"9223372036854775807", "/9223372036854775806", "TITLE x;", "OPTIONS GAPMODE=MISSING;", "MATRIX\n;", "NTAX=0", "NCHAR=0", "\n;\nEND;\n"}
@@ -350,6 +356,8 @@ func c03(args []string) error {
 		{"nexus", "#NEXUS\nBEGIN DATA;\nMATRIX\na\nb\n;\nEND;\n"}, {"nexus", "#NEXUS\nBEGIN DATA;\nMATRIX\n;\nEND;\n"},
 		{"nexus", "#NEXUS\nBEGIN DATA;\nEND;\n"}, {"nexus", "#NEXUS\nBEGIN DATA;\nDIMENSIONS NTAX=0 NCHAR=0;\nMATRIX\n;\nEND;\n"},
 		{"nexus", "#NEXUS\nBEGIN DATA;\n  TITLE x"}, {"nexus", "#NEXUS\nBEGIN TAXA;\n  OPTIONS GAPMODE=MISSING"},
+		{"nexus", "#NEXUS\nBEGIN DATA;\nDIMENSIONS NTAX=2 NCHAR=4;\nFORMAT DATATYPE=dna MISSING=\xc3\xa9 GAP=-;\nMATRIX\na AC\xc3\xa9\nb GT\xc3\xa9\n;\nEND;\n"},
+		{"nexus", "#NEXUS\nBEGIN DATA;\nDIMENSIONS NTAX=2 NCHAR=4;\nFORMAT DATATYPE=dna GAP=\xc3\xa9;\nMATRIX\na AC\xc3\xa9\nb GT\xc3\xa9\n;\nEND;\n"},
 		{"phylip", "2 0\na \nb \n"}, {"phylip", "2 0\na\nb\n"}, {"phylip-strict", "2 0\naaaaaaaaaa\nbbbbbbbbbb\n"},
 		{"clustal", "CLUSTAL W\n\na \nb \n"}, {"stockholm", "# STOCKHOLM 1.0\na \nb \n//\n"}, {"stockholm", "# STOCKHOLM 1.0\na\nb\n//\n"},
 	}
@@ -381,6 +389,33 @@ func c03(args []string) error {
 		}
 		if res.Names == nil {
 			res.Names, res.Seqs = []string{}, []string{}
+		}
+		if q.Format == "nexus" {
+			// the counts declared in the file, when the declaration is unambiguous (one NTAX=, one NCHAR=, no comment)
+			res.Parts = []int{}
+			if !bytes.ContainsAny(in, "[]") && q.Policy == 0 && !bytes.Contains(bytes.ToLower(in), []byte("taxa")) {
+				dims := nexusDimRe.FindAll(in, -1)
+				var nt, nc [][][]byte
+				if len(dims) == 1 && len(regexp.MustCompile(`(?i)dimensions`).FindAll(in, -1)) == 1 {
+					nt = nexusNtaxRe.FindAllSubmatch(dims[0], -1)
+					nc = nexusNcharRe.FindAllSubmatch(dims[0], -1)
+				} else {
+					nt, nc = [][][]byte{nil, nil}, [][][]byte{nil, nil} // ambiguous: not judged
+				}
+				decl := func(m [][][]byte) int {
+					if len(m) != 1 {
+						return -1
+					}
+					v, e := strconv.Atoi(string(m[0][1]))
+					if e != nil || v > 1000000 {
+						return -1
+					}
+					return v
+				}
+				if len(nt) <= 1 && len(nc) <= 1 {
+					res.Parts = []int{decl(nt), decl(nc)}
+				}
+			}
 		}
 		term := fmt.Sprintf("mk %s %s %s %s %s %s %s %s %s %s %s %s", coqStr(q.Format), coqZ(q.Policy), coqZ(q.Alpha), coqZ(q.PLen), coqBytes(in),
 			coqStr(res.Class), coqRows(res.Names, res.Seqs), coqZ(res.Len), coqZ(res.Alpha), coqList(multi), coqZList(res.Parts), coqZ(res.NPart))
